@@ -11,13 +11,13 @@ namespace Pj
 /-- every member of the result has a start and an end, both schedulers -/
 theorem C06_dates_present_forward (env : Env) (f0 : Uid → Fields) (res0 : List (Option Nat × Cal)) (o : Output)
     (hf : env.flagsOK) (h : forwardCalc env f0 res0 = .ok o) :
-    ∀ t ∈ memberList env, (o.f t).start.isSome = true ∧ (o.f t).end_.isSome = true := by
-  sorry
+    ∀ t ∈ memberList env, (o.f t).start.isSome = true ∧ (o.f t).end_.isSome = true :=
+  forwardCalc_dates env f0 res0 o h
 
 theorem C06_dates_present_backward (env : Env) (f0 : Uid → Fields) (res0 : List (Option Nat × Cal)) (o : Output)
     (hf : env.flagsOK) (h : backwardCalc env f0 res0 = .ok o) :
-    ∀ t ∈ memberList env, (o.f t).start.isSome = true ∧ (o.f t).end_.isSome = true := by
-  sorry
+    ∀ t ∈ memberList env, (o.f t).start.isSome = true ∧ (o.f t).end_.isSome = true :=
+  backwardCalc_dates env f0 res0 o h
 
 /-- hypotheses of clock independence for one clock: every reading lies on a day before the project start day and
     before the day of every user-fixed start that has no fixed end; user-fixed ends are not in the future -/
@@ -41,6 +41,10 @@ theorem C06_clock_full_fails :
     (∀ k, env.clock k ≤ env.bound) ∧ (∀ k, clk' k ≤ env.bound) ∧
     (forwardCalc env Witness.kfS6C06F0 Witness.kfS6C06Res).map (fun o => (memberList env).map o.f) ≠
     (forwardCalc { env with clock := clk' } Witness.kfS6C06F0 Witness.kfS6C06Res).map (fun o => (memberList env).map o.f) := by
-  sorry
+  refine ⟨fun k => ?_, fun k => Rat.le_refl, ?_⟩
+  · show ((315687 : Rat) / 16) ≤ ((315721 : Rat) / 16)
+    decide +kernel
+  · apply map_ne_of_proj _ _ _ (fun l => l.map (fun x => x.end_))
+    decide +kernel
 
 end Pj
